@@ -440,6 +440,39 @@ def C16_unbound_output_is_loud():
     return False, "an output bound to a value that no node/input/initializer defines was accepted"
 
 
+def C04_dimexpr_family():
+    """dimension arithmetic on a symbolic B evaluated by the exported model for B = 1..9 must equal JAX"""
+    jax, jnp = _jax()
+    exprs = {
+        "b*b + 2*b": lambda b: b * b + 2 * b,
+        "(b-5)//2 + 3": lambda b: (b - 5) // 2 + 3,
+        "-(-b//2)": lambda b: -(-b // 2),
+        "b % 3 + 1": lambda b: b % 3 + 1,
+        "2*b - 3 + 4": lambda b: 2 * b - 3 + 4,
+        "b*b - b + 1": lambda b: b * b - b + 1,
+        "7 - b//2": lambda b: 7 - b // 2,
+        "10 - b": lambda b: 10 - b,
+        "(b*b*b)//4": lambda b: (b * b * b) // 4,
+    }
+    for name, g in exprs.items():
+        def f(x, g=g):
+            return x[0] * g(x.shape[0])
+        try:
+            model = _export(f, [("B", 4)])
+        except Exception as e:
+            continue  # a loud refusal is not a wrong model
+        for b in range(1, 10):
+            x = np.ones((b, 4), dtype=np.float32)
+            try:
+                got = _run(model, [x])[0][0]
+            except Exception as e:
+                return False, f"{name} at B={b}: model failed in ORT: {str(e)[:150]}"
+            want = np.asarray(f(jnp.asarray(x)))
+            if got.shape != want.shape or not np.allclose(got, want):
+                return False, f"{name} at B={b}: model gives {got.reshape(-1)[0]}, JAX gives {want.reshape(-1)[0]}"
+    return True, f"{len(exprs)} dimension expressions agree with JAX for B=1..9"
+
+
 def C05_output_order_family():
     """results (a4d, b4d, c1d, d4d) under every ordered subset of outputs_as_nchw over the 4-D leaves:
     output k must be leaf k (NCHW-transposed iff flagged)."""
@@ -724,6 +757,7 @@ ALL = {
     "D15": D15_forest_fold_stale_shape,
     "D16": D16_nchw_input_dtype_matches_plain,
     "C05_output_order_family": C05_output_order_family,
+    "C04_dimexpr_family": C04_dimexpr_family,
     "C16_reverse_scan_is_loud": C16_reverse_scan_is_loud, "C16_unbound_output_is_loud": C16_unbound_output_is_loud,
     "C12_nchw_symbolic_dims": C12_nchw_symbolic_dims,
 }
